@@ -27,6 +27,10 @@ type Profile struct {
 	PDocNoise                                 float64
 	PLongValues                               float64 // clauses with more than 100 values, on the operators whose operands are pre-parsed
 	PSegBucket                                float64 // extra weight on weighted segment rules with a bucket-by attribute, some of them invalid references
+	PMissingAttr                              float64 // a non-first clause of a flag rule without the "attribute" property
+	PSegTwoRules                              float64 // segment = [rule bucketing by an attribute that does not match; rule weighted by key at the split point]
+	PEmptyKeyLists                            float64 // "" in a segment's included / excluded list when the context has an empty key
+	PKindInTargets                            float64 // entries of the older "targets" list that carry a contextKind
 	PLongHash                                 float64 // flag key / salt / context key sized around the 100-byte hash buffer and its growth steps
 	PLongKeys                                 float64 // context keys of 101..260 bytes (given PLongStrings)
 	PPlaceholders                             float64 // contextTargets made of placeholders for the user target lists, in another order than the lists
@@ -828,6 +832,9 @@ func (w *World) genTargets(n int, withKind bool, nvars int) *J {
 				vals = JArr()
 			}
 		}
+		if !withKind && w.p.PKindInTargets > 0 && r.P(w.p.PKindInTargets) { // the older list may carry a kind as well; it is kept and used
+			t.Set("contextKind", JStr(r.Pick(kinds)))
+		}
 		tv := int64(r.Intn(nvars + 1))
 		if r.P(0.04) { // a negative index is as malformed as one past the end: the target still decides, with MALFORMED_FLAG
 			tv = r.Pick2([]int64{-1, -1, -2, math.MinInt64})
@@ -903,6 +910,14 @@ func (w *World) genFlag(key string, prereqPool []string) *J {
 		cls := &J{K: 'a', A: []*J{}}
 		for j := 0; j < r.Intn(p.MaxClauses+1); j++ {
 			cls.A = append(cls.A, w.genClause(true))
+		}
+		if p.PMissingAttr > 0 && len(cls.A) >= 2 && r.P(p.PMissingAttr) {
+			// a clause that leaves the attribute property out altogether is a clause without attribute (MALFORMED_FLAG when
+			// reached), whatever the clauses before it say
+			k := 1 + r.Intn(len(cls.A)-1)
+			if op := cls.A[k].Get("op"); op != nil && op.S != "segmentMatch" {
+				cls.A[k].Del("attribute")
+			}
 		}
 		ru.Set("clauses", cls).Set("trackEvents", JBool(r.P(0.3)))
 		rules.A = append(rules.A, ru)
@@ -1041,7 +1056,29 @@ func (w *World) genSegment(key string) *J {
 		}
 		rules.A = append(rules.A, ru)
 	}
+	if p.PSegTwoRules > 0 && r.P(p.PSegTwoRules) {
+		// a rule that buckets by an attribute and does not match (weight 0), followed by a rule weighted by KEY with its split
+		// point next to the context's bucket: what the first rule bucketed by must not linger
+		first := JObj(KV{"id", JStr("by-attr")}, KV{"clauses", JArr()}, KV{"weight", JInt(0)}, KV{"bucketBy", JStr(r.Pick([]string{"email", "name", "age", "nested"}))})
+		var wt int64 = 50000
+		if b, ok := w.bucketOf(false, nil, "", key, "", salt); ok {
+			wt = int64(float64(b)*100000) + int64(r.Range(-1, 2))
+			if wt < 0 {
+				wt = 0
+			}
+		}
+		second := JObj(KV{"id", JStr("by-key")}, KV{"clauses", JArr()}, KV{"weight", JInt(wt)})
+		rules = JArr(first, second)
+	}
 	s.Set("rules", rules)
+	if p.PEmptyKeyLists > 0 { // the (legacy) empty key is a key like any other in the segment's lists too
+		for _, sp := range w.ctx.Singles {
+			if sp.Key == "" && r.P(p.PEmptyKeyLists) {
+				l := s.Get(r.Pick([]string{"included", "excluded", "included"}))
+				l.A = append(l.A, JStr(""))
+			}
+		}
+	}
 	if r.P(p.PBigSeg) {
 		s.Set("unbounded", JBool(true))
 		if r.P(0.5) {
